@@ -95,8 +95,10 @@ func runC01(c *Ctx) {
 						if phi, isPhi := cl.Call.Value.(*ssa.Phi); isPhi {
 							if ex1, _ := r.Results[1].(*ssa.Extract); ex1 != nil && ex1.Tuple == ex.Tuple {
 								known := true
+								hasNil := false
 								for _, e := range phi.Edges {
 									if k, isK := e.(*ssa.Const); isK && k.IsNil() {
+										hasNil = true
 										continue
 									}
 									fn := funcValueOf(e)
@@ -107,6 +109,9 @@ func runC01(c *Ctx) {
 									known = known && hit
 								}
 								nilRefused, _, _ := c.Guard(apply, nil, cmpReject("no handler picked: refused", token.EQL, pathIs(c.Path(phi, nil)), pathIs("nil")), func(in ssa.Instruction) bool { return in == ssa.Instruction(cl) })
+								if !hasNil {
+									nilRefused = true // (every way to the call has picked one: the default arm refuses at once)
+								}
 								a := cl.Call.Args
 								for _, e := range phi.Edges {
 									if fn := funcValueOf(e); fn != nil {
